@@ -312,7 +312,7 @@ theorem special_no_x_mem {h : Str} (hs : pyMatch SPECIAL_HOSTS_RE h = true) : 'x
   obtain ⟨w, hw, hq⟩ := Match.all_of_allCls (P := fun C => C.avoids [88, 120])
     (Q := fun c => c.toNat ∉ [88, 120]) ht (fun C c hC hc => CharClass.avoids_sound hC hc) special_no_x
   have hsp : spine SPECIAL_HOSTS_RE = (spine SPECIAL_HOSTS_RE).dropLast ++ [.eos] := by
-    have := label_facts.2.2.2.2
+    have := label_facts.2.2.2.2.1
     generalize spine SPECIAL_HOSTS_RE = l at this ⊢
     have hne : l ≠ [] := by intro e; subst e; simp at this
     rw [List.getLast?_eq_some_getLast hne] at this
